@@ -4,12 +4,20 @@
    failing certificate (`unguarded_cycle_refutes_every_rank`);  (2) the per-run obligation on the graph regenerated
    from the current source (`cg_rank_ok`, kernel evaluation);  (3) the non-recursive designs (compare/equals traversal
    stack, parser state stack, marker spill) and tail-call frame reuse, on hand models.
-   Tested, not proved (checks/C19.py): that every guard really counts on the recursive path, native stack bytes per
-   frame x limit < available stack, and that the hand models follow the C (driver jm_c19 vs fiber.c). -/
+   (4) native stack BYTES (session 3): `chain_bytes_le` / `segments_bytes_le_limits` for every graph and frame table,
+   per-run `cg_pot_ok`, `cg_units_ok`, `cg_stack_budget_ok` on the frame sizes gcc reports for the current source
+   (`Gen/DepthStack.lean`), giving `stack_bytes_bounded`; (5) nested counter instances: `nest_frames_le` (2·L live guard
+   frames when every re-entry site hands its depth on), `nest_unshared_reaches` (L·L without), per-run `cg_reentry_shared`.
+   Tested, not proved (checks/C19.py): that every guard really counts on the recursive path, and that the hand models
+   follow the C (driver jm_c19 vs fiber.c).  Assumed in (4): the per-class counts of live guard frames (`hcount`) - for the
+   pool classes that is what `Nest.lean` models; for `marsh` / `funcdef-nesting` one live counter instance per chain. -/
 import JanetModel.Depth.Lemmas
 import JanetModel.Depth.TailLemmas
 import JanetModel.Depth.Iterative
+import JanetModel.Depth.StackLemmas
+import JanetModel.Depth.Nest
 import JanetModel.Gen.Depth
+import JanetModel.Gen.DepthStack
 namespace JanetModel.Props.C19
 open JanetModel.Depth
 
@@ -124,5 +132,113 @@ theorem cg_tables_consistent :
     JanetModel.Gen.Depth.names.length = JanetModel.Gen.Depth.nV ∧
     JanetModel.Gen.Depth.guard.length = JanetModel.Gen.Depth.nV ∧
     JanetModel.Gen.Depth.rank.length = JanetModel.Gen.Depth.nV := by decide +kernel
+
+/-! ### native stack bytes (session 3) -/
+
+open JanetModel.Gen in
+/-- ★ every graph, every frame table: with a valid potential certificate a chain costs at most the potential of its
+    head plus the potentials of the guard frames after it -/
+theorem chain_bytes_le (G : CG) (frame pot : List Nat) (hok : potOK G frame pot = true) (a : Nat) (l : List Nat)
+    (hc : IsChain G (a :: l)) (hin : ∀ v ∈ a :: l, v < G.n) :
+    chainBytes frame (a :: l) ≤ pt pot a + guardPot G pot l :=
+  JanetModel.Depth.chain_bytes_le hok a l hc hin
+
+/-- ★ every graph: a stack made of chain segments (one per SCC it passes through) whose live guard frames of class `c`
+    number at most `N c` uses at most `#segments · maxHead + Σ_c N c · unit c` bytes -/
+theorem segments_bytes_le_limits (G : CG) (frame pot cls unit N : List Nat) (k mh : Nat)
+    (hok : potOK G frame pot = true) (hu : unitsOK G pot cls unit k mh = true) (segs : List (List Nat))
+    (hseg : ∀ s ∈ segs, IsChain G s ∧ ∀ v ∈ s, v < G.n)
+    (hcount : ∀ c, c < k → classCount G cls c segs.flatten ≤ N.getD c 0) :
+    (segs.map (chainBytes frame)).sum ≤ segs.length * mh + limitSum N unit k :=
+  JanetModel.Depth.segments_bytes_le_limits hok hu segs hseg hcount
+
+/-- non-vacuity: 3 functions, guard 0 with a 100-byte frame calling 1 (40) calling 2 (8) calling 0 -/
+example : potOK { n := 3, edges := [(0, 1), (1, 2), (2, 0)], guard := [true, false, false] } [100, 40, 8] [148, 48, 8] = true := by decide
+example : potOK { n := 3, edges := [(0, 1), (1, 2), (2, 0)], guard := [true, false, false] } [100, 40, 8] [148, 47, 8] = false := by decide
+example : chainBytes [100, 40, 8] [0, 1, 2, 0, 1] = 288 := by decide
+
+/-- ★ per-run obligation: the potential certificate is valid for the frame sizes gcc reports for the current source
+    (both build variants) on the stack graph -/
+theorem cg_pot_ok : potOK JanetModel.Gen.DepthStack.cgS JanetModel.Gen.DepthStack.frame JanetModel.Gen.DepthStack.pot = true := by
+  decide +kernel
+
+/-- ★ per-run obligation: every guard's potential is within the unit of its class, every other function's within `maxHead` -/
+theorem cg_units_ok : unitsOK JanetModel.Gen.DepthStack.cgS JanetModel.Gen.DepthStack.pot JanetModel.Gen.DepthStack.cls
+    JanetModel.Gen.DepthStack.unit JanetModel.Gen.DepthStack.nClasses JanetModel.Gen.DepthStack.maxHead = true := by
+  decide +kernel
+
+/-- the stack tables fit the call graph of `Gen/Depth.lean`: same functions, edges a subset, charging guards a subset -/
+theorem cg_stack_tables_consistent :
+    JanetModel.Gen.DepthStack.nV = JanetModel.Gen.Depth.nV ∧
+    JanetModel.Gen.DepthStack.frame.length = JanetModel.Gen.Depth.nV ∧
+    JanetModel.Gen.DepthStack.pot.length = JanetModel.Gen.Depth.nV ∧
+    JanetModel.Gen.DepthStack.cls.length = JanetModel.Gen.Depth.nV ∧
+    JanetModel.Gen.DepthStack.guard.length = JanetModel.Gen.Depth.nV ∧
+    JanetModel.Gen.DepthStack.unit.length = JanetModel.Gen.DepthStack.nClasses ∧
+    JanetModel.Gen.DepthStack.recursionGuard = JanetModel.Gen.Depth.recursionGuard ∧
+    JanetModel.Gen.DepthStack.edges.all (fun e => JanetModel.Gen.Depth.edges.contains e) = true ∧
+    (List.zip JanetModel.Gen.DepthStack.guard JanetModel.Gen.Depth.guard).all (fun p => !p.1 || p.2) = true := by
+  decide +kernel
+
+/-- the whole budget: functions outside the cycles (each at most once), libc allowance, one head per SCC, and per
+    counter class (live frames its protocol allows) × (bytes per charged level) -/
+def budgetTotal : Nat :=
+  JanetModel.Gen.DepthStack.transitBytes + JanetModel.Gen.DepthStack.libcAllowance +
+  JanetModel.Gen.DepthStack.nSCC * JanetModel.Gen.DepthStack.maxHead +
+  limitSum (limitsOf JanetModel.Gen.DepthStack.classes JanetModel.Gen.DepthStack.nClasses)
+    JanetModel.Gen.DepthStack.unit JanetModel.Gen.DepthStack.nClasses
+
+/-- ★ per-run obligation: the budget is below the default 8 MiB stack -/
+theorem cg_stack_budget_ok : budgetTotal < JanetModel.Gen.DepthStack.stackLimit := by decide +kernel
+
+/-- ★ per-run obligation: every site where a locally counted recursion can start another counter instance hands on
+    the depth it has used (otherwise the class limit is `L·L`, see `classLimit`, and the budget cannot hold) -/
+theorem cg_reentry_shared : JanetModel.Gen.DepthStack.reentry.all (fun r => r.2.2) = true := by decide +kernel
+
+/-- ★ `stack_bytes_bounded`: on the graph and frame sizes of the current source, a native stack made of call-chain
+    segments (at most one per SCC) whose live guard frames per counter class stay within what the class's protocol
+    allows, plus everything outside the cycles and the libc allowance, is below 8 MiB -/
+theorem stack_bytes_bounded (segs : List (List Nat))
+    (hseg : ∀ s ∈ segs, IsChain JanetModel.Gen.DepthStack.cgS s ∧ ∀ v ∈ s, v < JanetModel.Gen.DepthStack.cgS.n)
+    (hlen : segs.length ≤ JanetModel.Gen.DepthStack.nSCC)
+    (hcount : ∀ c, c < JanetModel.Gen.DepthStack.nClasses →
+      classCount JanetModel.Gen.DepthStack.cgS JanetModel.Gen.DepthStack.cls c segs.flatten ≤
+        (limitsOf JanetModel.Gen.DepthStack.classes JanetModel.Gen.DepthStack.nClasses).getD c 0) :
+    (segs.map (chainBytes JanetModel.Gen.DepthStack.frame)).sum + JanetModel.Gen.DepthStack.transitBytes +
+      JanetModel.Gen.DepthStack.libcAllowance < JanetModel.Gen.DepthStack.stackLimit := by
+  have h1 := JanetModel.Depth.segments_bytes_le_limits cg_pot_ok cg_units_ok segs hseg hcount
+  have h2 : segs.length * JanetModel.Gen.DepthStack.maxHead ≤
+      JanetModel.Gen.DepthStack.nSCC * JanetModel.Gen.DepthStack.maxHead := Nat.mul_le_mul_right _ hlen
+  have h3 := cg_stack_budget_ok
+  unfold budgetTotal at h3
+  omega
+
+/-- non-vacuity of `stack_bytes_bounded`: the empty stack and a one-frame stack satisfy the hypotheses -/
+example : (([] : List (List Nat)).map (chainBytes JanetModel.Gen.DepthStack.frame)).sum = 0 := rfl
+example : IsChain JanetModel.Gen.DepthStack.cgS [0] := trivial
+
+/-! ### nested counter instances (session 3) -/
+
+/-- ★ every nesting of interpreter entries and local counter instances (all event sequences): when every re-entry
+    site hands its depth on, at most `2·L` guard frames of the pool are live -/
+theorem nest_frames_le (L : Nat) (evs : List NEv) (s' : NState) (h : nrun true L ⟨0, 0, 0⟩ evs = some s') :
+    s'.frames ≤ 2 * L :=
+  JanetModel.Depth.nest_frames_le L evs s' h
+
+/-- ★ without handing the depth on the same guards accept `k·L` live guard frames for every `k ≤ L` (a product) -/
+theorem nest_unshared_reaches (L : Nat) (hL : 0 < L) (k : Nat) (hk : k ≤ L) :
+    nrun false L ⟨0, 0, 0⟩ (List.flatten (List.replicate k (nestBlock L))) = some ⟨k, 0, k * L⟩ :=
+  JanetModel.Depth.nest_unshared_reaches L hL k hk
+
+/-- the shared protocol refuses the multiplying pattern at its second level -/
+theorem nest_shared_refuses (L : Nat) (hL : 2 ≤ L) : nrun true L ⟨0, 0, 0⟩ (nestBlock L ++ nestBlock L) = none :=
+  JanetModel.Depth.nest_shared_refuses L hL
+
+/-- non-vacuity: a nest the shared protocol accepts (compile 3 deep, macro, compile 2 deep, macro, peg 1 deep) -/
+example : nrun true 1024 ⟨0, 0, 0⟩ [.vm, .fresh, .loc, .loc, .loc, .vm, .fresh, .loc, .loc, .vm, .fresh, .loc]
+    = some ⟨8, 1, 9⟩ := by decide
+/-- what the product means at the real limit: 12 levels of 900 (corpus/C19/nested-macro-compile.janet) -/
+example : nrun false 1024 ⟨0, 0, 0⟩ (List.flatten (List.replicate 12 (nestBlock 1024))) = some ⟨12, 0, 12 * 1024⟩ :=
+  JanetModel.Depth.nest_unshared_reaches 1024 (by decide) 12 (by decide)
 
 end JanetModel.Props.C19
